@@ -304,6 +304,53 @@ def sortMany : Sorter α → List (SortReq α) → List (Option (List α))
   | _, [] => []
   | s, q :: rest => (sortOnce q.env q.keys q.nodes q.abort s).2 :: sortMany (sortOnce q.env q.keys q.nodes q.abort s).1 rest
 
+/-! ### re-entrant sorting
+Evaluating a sort key (or an AVT of an xsl:sort) can run a whole other sort — the first reference to a top-level
+variable or parameter is evaluated lazily, and its body may contain a sorted xsl:for-each / xsl:apply-templates.
+The execution context has ONE `NodeSorter` (`getNodeSorter()` returns `&m_nodeSorter`).
+
+* as it was: the inner `sortChildren` takes the same sorter while the outer sort holds it: `sortOnce` on the busy
+  sorter (`sortOnceShared`) — the inner keys are appended BEHIND the outer keys (so the inner nodes are compared by
+  the outer keys first; with a key that references the variable being evaluated this is the spurious "circular
+  variable definition"), and at exit the guards empty the key vector, the scratch vector and the caches of the outer
+  sort, which then continues on emptied vectors.
+* as fixed (proposed/C16-reentrant-sorter.diff): `sortChildren` uses the shared sorter only when it is idle (its key
+  vector is empty) and a private `NodeSorter` otherwise. -/
+
+/-- the inner sort as it was: on the shared sorter, whatever it holds -/
+def innerSortShared (shared : Sorter α) (q : SortReq α) : Sorter α × Option (List α) :=
+  sortOnce q.env q.keys q.nodes q.abort shared
+
+/-- the inner sort as fixed: a private sorter when the shared one is in use -/
+def innerSortFixed (shared : Sorter α) (q : SortReq α) : Sorter α × Option (List α) :=
+  if shared.keys.isEmpty == false then
+    (shared, (sortOnce q.env q.keys q.nodes q.abort ({} : Sorter α)).2)     -- NodeSorter theLocalSorter(...)
+  else sortOnce q.env q.keys q.nodes q.abort shared
+
+/-- what happens while an outer sort is active: a comparator call of the outer sort, or a complete inner sort
+triggered by a key evaluation -/
+inductive SortEvent (α : Type) where
+  | compare (l r : Entry α)
+  | inner (q : SortReq α)
+
+/-- results: of a comparison, or of an inner sort -/
+inductive EventResult (α : Type) where
+  | cmp (v : Int)
+  | sorted (l : Option (List α))
+deriving DecidableEq, Repr
+
+/-- the outer sort (keys and scratch already in the sorter `s`, `n` nodes) processing events; `inner` says how an
+inner sort obtains its sorter -/
+def runEvents (inner : Sorter α → SortReq α → Sorter α × Option (List α)) (env : Env α) (n : Nat) :
+    Sorter α → List (SortEvent α) → List (EventResult α)
+  | _, [] => []
+  | s, .compare l r :: rest =>
+    let c := compareFromM env s.keys.length n s.keys 0 s.caches l r
+    .cmp c.2 :: runEvents inner env n { s with caches := c.1 } rest
+  | s, .inner q :: rest =>
+    let r := inner s q
+    .sorted r.2 :: runEvents inner env n r.1 rest
+
 /-- do two of the nodes tie on all of these keys?  (A key expression placed after them is evaluated by a sort
 exactly when this holds: a comparison reaches key `j` only for two nodes that tie on keys `0 … j-1`.) -/
 def existsTie (env : Env α) (keys : List Key) : List α → Bool
